@@ -97,9 +97,15 @@ def do_replay(world, prop, path, tier="quick"):
     scratch, _ = prepare(world, tier)
     with open(path) as fh:
         case = json.load(fh)
-    res = world.execute(case)
     clause = case.get("clause")
-    f = first_failure(res, prop, clause)
+    # a replay whose failure depends on state outside the simulator's control (flagged when it
+    # was written) is attempted several times; every other replay is executed exactly once
+    attempts = 5 if (case.get("reproduced") or {}).get("note") else 1
+    for attempt in range(attempts):
+        res = world.execute(case)
+        f = first_failure(res, prop, clause)
+        if f is not None:
+            break
     print("REPLAY property=%s clause=%s digest=%s build_matches=%s" % (prop, clause, res["digest"][:16], case.get("build", {}).get("sha256_of_sources") == build.source_digest(scratch)))
     if f is not None:
         print("  op=%s expected=%s observed=%s" % (f.get("op"), json.dumps(f.get("expected"), default=str)[:300], json.dumps(f.get("observed"), default=str)[:300]))
@@ -209,26 +215,40 @@ def run_check(world, prop, tier, verif_seed, level, rule, assumptions, scale=1.0
         case = world.gen_case(by_index[idx])
         simp = world.simplifiers() if hasattr(world, "simplifiers") else ()
         mini = kernel.minimise(case, same_failure_fn(world, prop, clause), simp, max_candidates=300, max_seconds=60.0)
-        res1 = world.execute(mini)
-        res2 = world.execute(mini)
-        f1, f2 = first_failure(res1, prop, clause), first_failure(res2, prop, clause)
-        if f1 is None or f2 is None or res1["digest"] != res2["digest"]:
-            # a failure that does not replay identically is a harness defect, not a finding
-            print("HARNESS-ERROR minimised case for %s/%s did not reproduce identically" % (clause, sig))
-            return 2
+
+        def reproduce(c):
+            r1, r2 = world.execute(c), world.execute(c)
+            g1, g2 = first_failure(r1, prop, clause), first_failure(r2, prop, clause)
+            return (g1 is not None) + (g2 is not None), (g1 or g2), g1 is not None and g2 is not None and r1["digest"] == r2["digest"]
+
+        note = None
+        n_fork, f1, stable = reproduce(mini)
+        chosen = mini
+        if not stable:
+            # The minimised case does not replay identically.  On a tree where the determinism
+            # self-test passes this means the failure depends on state the simulator does not own
+            # (e.g. object addresses reused by the allocator).  Fall back to the original run.
+            n_fork, f0, stable0 = reproduce(case)
+            chosen = dict(case, minimised=None)
+            f1 = f0 or f
+            note = ("the failure was observed by the oracle in run index %d but %s; it depends on state outside the simulator's control "
+                    "(such as object addresses), so the replay file holds the un-minimised run" % (idx, "re-executes identically only un-minimised" if stable0 else "does not recur on every re-execution"))
+            stable = stable0
         kf = kernel.match_known(known, prop, clause, f1["signature"])
-        path = write_replay(world, prop, mini, f1, tier, verif_seed, scratch, {"fork": 2, "fresh_interpreter": 0})
-        ok, out = replay_in_fresh_interpreter(prop, path)
-        if not ok:
-            print("HARNESS-ERROR replay %s did not reproduce in a fresh interpreter:\n%s" % (path, out[-1500:]))
-            return 2
+        path = write_replay(world, prop, chosen, f1, tier, verif_seed, scratch, {"fork": n_fork, "of": 2, "fresh_interpreter": 0, "note": note})
+        ok, out = replay_in_fresh_interpreter(prop, path) if stable else (False, "")
+        if not ok and note is None:
+            note = "reproduces in forks of the check's template process but not in a freshly spawned interpreter"
         with open(path) as fh:
             doc = json.load(fh)
-        doc["reproduced"]["fresh_interpreter"] = 1
+        doc["reproduced"]["fresh_interpreter"] = int(bool(ok))
+        doc["reproduced"]["note"] = note
         with open(path, "w") as fh:
             json.dump(doc, fh, indent=1, sort_keys=True)
             fh.write("\n")
-        entry = {"clause": clause, "signature": f1["signature"], "runs_failing": len(members), "replay": path, "minimised": mini.get("minimised")}
+        if note:
+            print("NOTE %s %s: %s" % (prop, clause, note))
+        entry = {"clause": clause, "signature": f1["signature"], "runs_failing": len(members), "replay": path, "minimised": chosen.get("minimised"), "reproduced": doc["reproduced"]}
         dup = next((e for e in violations + known_hits if e["clause"] == clause and e["signature"] == f1["signature"]), None)
         if dup is not None:
             # same clause and same minimised signature as a group already reported
